@@ -323,6 +323,8 @@ UNIT = Unit(
         Adt(file=A, kw="enum", name="CExpr", rules=["attrs"]),
         Adt(file=A, kw="enum", name="AExpr", rules=["attrs"]),
         Adt(file=A, kw="struct", name="Arm", rules=["attrs"]),
+        Adt(file="crates/common-defs/src/lib.rs", kw="enum", name="UnaryOp", rules=["attrs"]),
+        Adt(file="crates/common-defs/src/lib.rs", kw="enum", name="BinaryOp", rules=["attrs"]),
         Raw(path="contracts/anf.shim.rs"),
         Raw(text=imm_direct_spec, item="crates/compiler/src/anf.rs::anf_imm direct arms (imm_direct)"),
         Fn(file=L, name="get_ty", container="LiftExpr", ret="r", rewrites=[(re.compile(r"=> ty\.clone\(\),"), "=> ty.vclone(),", "*")],
